@@ -30,7 +30,7 @@ def km_list(tier):
 
 
 def bounds(tier):
-    return {"l": "0..4", "K,M": km_list(tier), "subject_type": 2, "depth": 2 if tier == "quick" else "3 for K*M <= 4 and l <= 2, else 2",
+    return {"l": "0..4", "K,M": km_list(tier), "subject_type": 2, "depth": 2 if tier == "quick" else "3 for K*M <= 2 and l <= 2, else 2",
             "primitive_permutations": "all K! at depth 0", "scale_factors": SCALES,
             "linearity": "every integral/evaluation block class, each shell slot"}
 
@@ -168,9 +168,10 @@ def evaluate(cfg):
         depth_of = {}
         seed = System(shells, None, env)
         depth_of[seed.key()] = 0
-        # depth 3 for the smaller shells (K*M <= 4, l <= 2); the others stop at depth 2 (their depth-0 alphabet alone
-        # has up to 61 rewrites; a complete depth-3 search of all 400 subjects took more than 20 CPU-hours)
-        deep = (not quick) and cfg["K"] * cfg["M"] <= 4 and cfg["l"] <= 2
+        # depth 3 for the smallest shells (K*M <= 2, l <= 2); the others stop at depth 2 (their depth-0 alphabet alone
+        # has up to 61 rewrites; depth 3 for all 400 subjects, and then for K*M <= 4, did not finish in 20 / 15
+        # CPU-hours)
+        deep = (not quick) and cfg["K"] * cfg["M"] <= 2 and cfg["l"] <= 2
         ex.bfs(seed, make_rewrites(depth_of, cfg.get("branch")), depth=3 if deep else 2)
         return o
     # block-level linearity in the coefficient matrix of each shell slot
